@@ -12,6 +12,7 @@ def write_host(dirpath, names, depth=1, method=False, caller_locals=False, tag='
     _counter[0] += 1
     fname = 'host_%s%d.py' % (tag, _counter[0])
     params = ', '.join(names)
+    mparams = ', '.join(n if n != 'self' else 'self_' for n in names)
     lines = ['"""generated host"""', '', '']
     lines += ['def leaf(%s):' % params,
               '    marker = 0  # @hit',
@@ -25,7 +26,7 @@ def write_host(dirpath, names, depth=1, method=False, caller_locals=False, tag='
     if method == 'falsy_bool':
         lines += ['    def __bool__(self):', '        return False', '']
     lines += [
-              '    def meth(self%s):' % (', ' + params if params else ''),
+              '    def meth(self%s):' % (', ' + mparams if mparams else ''),
               '        marker = 0  # @hit_m',
               '        return marker', '', '']
     target = 'Holder().meth' if method else 'leaf'
